@@ -88,24 +88,28 @@ Section Cmp.
   Qed.
 End Cmp.
 
-(* code: 0 floor 1 ceil 2 trunc/fix 3 sign 4 > 5 >= 6 < 7 <= 8 == 9 != (the comparisons against the constant pc/qc) 10 rint/round/around *)
+(* code: 0 floor 1 ceil 2 trunc/fix 3 sign 4 > 5 >= 6 < 7 <= 8 == 9 != (the comparisons against the constant pc/qc) 10 rint/round/around 11 logical_not 12 isfinite/isreal 13.. isnan/isinf/isposinf/isneginf/iscomplex *)
 Definition zmodel (code : nat) (pc qc p q : Z) : Z :=
   match code with
   | 0%nat => zfloor p q | 1%nat => zceil p q | 2%nat => ztrunc p q | 3%nat => zsign p
   | 4%nat => zgt pc qc p q | 5%nat => zge pc qc p q | 6%nat => zlt pc qc p q | 7%nat => zle pc qc p q
-  | 8%nat => zeq pc qc p q | 9%nat => zne pc qc p q | _ => zrint p q
+  | 8%nat => zeq pc qc p q | 9%nat => zne pc qc p q | 10%nat => zrint p q
+  | 11%nat => zeq 0 1 p q | 12%nat => 1%Z | _ => 0%Z
   end.
 Definition rmodel (code : nat) (c : R) : R -> R :=
   match code with
   | 0%nat => rfloor | 1%nat => rceil | 2%nat => rtrunc | 3%nat => rsign
-  | 4%nat => rgt c | 5%nat => rge c | 6%nat => rlt c | 7%nat => rle c | 8%nat => req c | 9%nat => rneq c | _ => rrint
+  | 4%nat => rgt c | 5%nat => rge c | 6%nat => rlt c | 7%nat => rle c | 8%nat => req c | 9%nat => rneq c | 10%nat => rrint
+  | 11%nat => req 0 | 12%nat => (fun _ => 1) | _ => (fun _ => 0)
   end.
 
 Theorem zmodel_computes_rmodel code pc qc p q : (0 < qc)%Z -> (0 < q)%Z ->
   rmodel code (IZR pc / IZR qc) (IZR p / IZR q) = IZR (zmodel code pc qc p q).
 Proof.
   intros Hc Hq. do 10 (destruct code as [|code]; [simpl; auto using rfloor_Q, rceil_Q, rtrunc_Q, rsign_Q, rgt_Q, rge_Q, rlt_Q, rle_Q, req_Q, rneq_Q|]).
-  simpl. now apply rrint_Q.
+  destruct code as [|code]; [simpl; now apply rrint_Q|].
+  destruct code as [|code]; [simpl; replace 0 with (IZR 0 / IZR 1) at 1 by (simpl; field); apply req_Q; lia|].
+  destruct code as [|code]; reflexivity.
 Qed.
 
 (* a case: the function, the constant of a comparison, the point, and what the implementation returned: the value of
